@@ -36,6 +36,11 @@ func (x *execCtx) defaultFor(c *Column) (Value, error) {
 	if c.Default == nil {
 		return nil, nil
 	}
+	if c.DefPath != nil {
+		saved := x.s.pathOverride
+		x.s.pathOverride = c.DefPath
+		defer func() { x.s.pathOverride = saved }()
+	}
 	v, err := x.eval(c.Default, nil)
 	if err != nil {
 		return nil, err
@@ -47,7 +52,7 @@ func tableBinding(t *Table, alias string, vals []Value, src *Row) *relBinding {
 	if alias == "" {
 		alias = t.Name
 	}
-	return &relBinding{name: alias, cols: t.colNames(), vals: vals, src: src, tbl: t, rowType: t.Name}
+	return &relBinding{name: alias, cols: t.colNames(), vals: vals, src: src, tbl: t, rowType: t.qname()}
 }
 
 // ---------- row locking / EvalPlanQual ----------
@@ -292,12 +297,12 @@ func (x *execCtx) fireTrigger(t *Table, tg *Trigger, event string, newVals, oldV
 	var rels []*relBinding
 	var newRec, oldRec *Record
 	if newVals != nil {
-		newRec = &Record{Type: t.Name, Names: cols, Vals: append([]Value(nil), newVals...)}
-		rels = append(rels, &relBinding{name: "new", cols: cols, vals: newRec.Vals, hidden: true, rowType: t.Name})
+		newRec = &Record{Type: t.qname(),Names: cols, Vals: append([]Value(nil), newVals...)}
+		rels = append(rels, &relBinding{name: "new", cols: cols, vals: newRec.Vals, hidden: true, rowType: t.qname()})
 	}
 	if oldVals != nil {
-		oldRec = &Record{Type: t.Name, Names: cols, Vals: oldVals}
-		rels = append(rels, &relBinding{name: "old", cols: cols, vals: oldVals, hidden: true, rowType: t.Name})
+		oldRec = &Record{Type: t.qname(),Names: cols, Vals: oldVals}
+		rels = append(rels, &relBinding{name: "old", cols: cols, vals: oldVals, hidden: true, rowType: t.qname()})
 	}
 	if tg.When != nil {
 		v, err := x.eval(tg.When, &scope{rels: rels})
@@ -630,9 +635,9 @@ func (x *execCtx) applyConflictUpdate(t *Table, ins *Insert, alias string, targe
 	oc := ins.OnConflict
 	cols := t.colNames()
 	tb := tableBinding(t, alias, target.Vals, target)
-	rels := []*relBinding{tb, {name: "excluded", cols: cols, vals: proposed, hidden: true, rowType: t.Name}}
+	rels := []*relBinding{tb, {name: "excluded", cols: cols, vals: proposed, hidden: true, rowType: t.qname()}}
 	if alias != t.Name {
-		rels = append(rels, &relBinding{name: t.Name, cols: cols, vals: target.Vals, hidden: true, rowType: t.Name})
+		rels = append(rels, &relBinding{name: t.Name, cols: cols, vals: target.Vals, hidden: true, rowType: t.qname()})
 		// Postgres only exposes the alias; keep the table name too since bun omits aliases
 		rels = rels[:2]
 	}
@@ -762,7 +767,7 @@ func (x *execCtx) evalReturning(list []SelCol, t *Table, alias string, vals []Va
 	tb := tableBinding(t, alias, vals, row)
 	rels := append([]*relBinding{tb}, extra...)
 	if alias != t.Name {
-		rels = append(rels, &relBinding{name: t.Name, cols: tb.cols, vals: vals, hidden: true, rowType: t.Name})
+		rels = append(rels, &relBinding{name: t.Name, cols: tb.cols, vals: vals, hidden: true, rowType: t.qname()})
 	}
 	sc := &scope{parent: outer, rels: rels}
 	_, exprs, err := x.expandSelectList(list, []relShape{{name: alias, cols: tb.cols}})
